@@ -1,2 +1,203 @@
-(* C09 Properties — stub, being written *)
-From EsVerif.C09 Require Import Gen Model Spec.
+(* C09 -- celestial coordinate conversions are invertible isometries with correct poles.
+   Only statements; every proof is `exact <lemma>` (Geometry.v, Proofs.v, Rows.v, ExecProofs.v).
+   The model (Model.v) is over the reals; its constants AND shape flags come from Gen.v, regenerated
+   from esutil/coords.py on every run, so the theorems below are re-proved for the constants and the
+   formulas' shape of the tree under test.  Tolerances: tol5 = 1e-5 degree, tol9 = 1e-9 degree
+   (radians); within_sky t u v  <->  great-circle angle(u, v) <= t  (C09_within_sky_is_angle). *)
+From Coq Require Import Reals QArith List.
+From EsVerif.Common Require Import Base.
+From EsVerif.C09 Require Import Gen Model Spec Geometry Proofs Rows Exec ExecProofs.
+Open Scope R_scope.
+
+(* ---------------------------------------------------------------- meaning of the measured statements *)
+Theorem C09_within_sky_is_angle : forall t u v, is_unit u -> is_unit v -> 0 <= t <= PI ->
+  (within_sky t u v <-> angle u v <= t).
+Proof. exact within_sky_angle. Qed.
+
+Theorem C09_sep_is_angle : forall u v, is_unit u -> is_unit v -> 0 < chord2 u (vopp v) -> sep u v = angle u v.
+Proof. exact sep_is_angle. Qed.
+
+(* ---------------------------------------------------------------- euler: the general transformation *)
+(* the computed vector is Rz(psi) Rx(theta) Rz(-phi) applied to the input direction *)
+Theorem C09_euler_is_linear : forall r a b, euler_vec r a b = Rz (r_psi r) (euler_xyz r a b).
+Proof. exact euler_vec_xyz. Qed.
+
+(* an exact rotation -- isometry with the inverse (psi,s,c,phi) -> (phi,-s,c,psi) -- when s^2+c^2 = 1 *)
+Theorem C09_euler_is_rotation : forall r, r_st r * r_st r + r_ct r * r_ct r = 1 ->
+  forall u v, dot (euler_lin r u) (euler_lin r v) = dot u v.
+Proof. exact euler_isometry. Qed.
+
+Theorem C09_euler_rotation_inverse : forall r, r_st r * r_st r + r_ct r * r_ct r = 1 ->
+  forall u, euler_lin (row_inv r) (euler_lin r u) = u.
+Proof. exact euler_inverse. Qed.
+
+(* the returned angles are coordinates of the direction of the computed vector, in range *)
+Theorem C09_euler_extract : forall r a b, 0 < norm2 (euler_xyz r a b) ->
+  represents_deg (euler_R r a b) (euler_vec r a b).
+Proof. exact euler_extract. Qed.
+
+Theorem C09_euler_range : forall r a b,
+  0 <= fst (euler_R r a b) < 360 /\ -90 <= snd (euler_R r a b) <= 90.
+Proof. exact euler_range. Qed.
+
+(* ---------------------------------------------------------------- the 12 tabulated rows (regenerated) *)
+Theorem C09_rows_orthonormal : forall b s, valid_sel s -> Rabs (eps_of (euler_row b s)) <= eps_max.
+Proof. exact rows_orthonormal. Qed.
+
+Theorem C09_rows_inverse_pairs : forall b s, valid_sel s -> euler_row b (inv_select s) = row_inv (euler_row b s).
+Proof. exact rows_inverse_pairs. Qed.
+
+Theorem C09_rows_nonzero : forall b s a d, valid_sel s -> 0 < norm2 (euler_xyz (euler_row b s) a d).
+Proof. exact rows_nonzero. Qed.
+
+(* every conversion followed by its inverse returns every point (poles included) to within 1e-5 deg *)
+Theorem C09_conversions_invertible : forall b s a d, valid_sel s ->
+  let p := euler_R (euler_row b s) a d in
+  let q := euler_R (euler_row b (inv_select s)) (fst p) (snd p) in
+  within_sky tol5 (unit_deg (fst q) (snd q)) (unit_deg a d).
+Proof. exact rows_invertible. Qed.
+
+(* separations: cosines change by at most 1e-10, squared chords by a factor within 1 +- 1e-10
+   (partial: stated on the rotated vectors, not on the angle between the returned positions) *)
+Theorem C09_conversions_near_isometry_partial : forall b s, valid_sel s -> isometry_to eps_max (euler_lin (euler_row b s)).
+Proof. exact rows_near_isometry. Qed.
+
+Theorem C09_conversions_preserve_chords_partial : forall b s u v, valid_sel s ->
+  Rabs (chord2 (euler_lin (euler_row b s) u) (euler_lin (euler_row b s) v) - chord2 u v) <= eps_max * chord2 u v.
+Proof. exact rows_chord_preserved. Qed.
+
+(* J2000: agreement with the exact rotation defined by the documented pole and node constants *)
+Theorem C09_documented_rows_are_rotations : forall s,
+  r_st (doc_row s) * r_st (doc_row s) + r_ct (doc_row s) * r_ct (doc_row s) = 1.
+Proof. exact doc_row_rotation. Qed.
+
+Theorem C09_agree_with_documented_constants : forall s a d, valid_sel s ->
+  let p := euler_R (euler_row false s) a d in
+  within_sky tol5 (unit_deg (fst p) (snd p)) (euler_lin (doc_row s) (unit_deg a d)).
+Proof. exact rows_agree_documented. Qed.
+
+(* chained conversions agree with the direct one (both epochs), on the returned positions *)
+Theorem C09_chain_equals_direct : forall b a d,
+  (let p1 := euler_R (euler_row b 4) a d in
+   let p2 := euler_R (euler_row b 1) (fst p1) (snd p1) in
+   let pd := euler_R (euler_row b 5) a d in
+   within_sky tol5 (unit_deg (fst pd) (snd pd)) (unit_deg (fst p2) (snd p2)))
+  /\
+  (let p1 := euler_R (euler_row b 2) a d in
+   let p2 := euler_R (euler_row b 3) (fst p1) (snd p1) in
+   let pd := euler_R (euler_row b 6) a d in
+   within_sky tol5 (unit_deg (fst pd) (snd pd)) (unit_deg (fst p2) (snd p2))).
+Proof. exact rows_chain_angles. Qed.
+
+(* ---------------------------------------------------------------- rotate *)
+Theorem C09_rotate_range : forall phi theta psi ra dec,
+  0 <= fst (rotate_R phi theta psi ra dec) < 360 /\ -90 <= snd (rotate_R phi theta psi ra dec) <= 90.
+Proof. exact rotate_range. Qed.
+
+Theorem C09_rotate_isometry : forall phi theta psi ra1 dec1 ra2 dec2,
+  let p := rotate_R phi theta psi ra1 dec1 in
+  let q := rotate_R phi theta psi ra2 dec2 in
+  dot (unit_deg (fst p) (snd p)) (unit_deg (fst q) (snd q)) = dot (unit_deg ra1 dec1) (unit_deg ra2 dec2).
+Proof. exact rotate_isometry. Qed.
+
+Theorem C09_rotate_inverse : forall phi theta psi ra dec,
+  let p := rotate_R phi theta psi ra dec in
+  let q := rotate_R psi (- theta) phi (fst p) (snd p) in
+  unit_deg (fst q) (snd q) = unit_deg ra dec.
+Proof. exact rotate_inverse. Qed.
+
+(* ---------------------------------------------------------------- unit vectors *)
+Theorem C09_xyz_unit_length : forall deg stomp ra dec, is_unit (eq2xyz_R deg stomp ra dec).
+Proof. exact xyz_unit_length. Qed.
+
+(* eq2xyz is a rotation about z of the direction of (ra, dec): separations are preserved *)
+Theorem C09_xyz_is_rotated_direction : forall deg stomp ra dec,
+  eq2xyz_R deg stomp ra dec = Rz (- (if stomp then sdss_node else 0)) (unit_rad (ang_in deg ra) (ang_in deg dec)).
+Proof. exact eq2xyz_unit. Qed.
+
+Theorem C09_xyz_inverse : forall deg stomp v, 0 < norm2 v ->
+  eq2xyz_R deg stomp (fst (xyz2eq_R deg stomp v)) (snd (xyz2eq_R deg stomp v)) = normalize v.
+Proof. exact xyz_inverse. Qed.
+
+Theorem C09_xyz_roundtrip : forall deg stomp ra dec,
+  let p := xyz2eq_R deg stomp (eq2xyz_R deg stomp ra dec) in
+  eq2xyz_R deg stomp (fst p) (snd p) = eq2xyz_R deg stomp ra dec.
+Proof. exact xyz_roundtrip. Qed.
+
+Theorem C09_xyz2eq_range : forall stomp v,
+  0 <= fst (xyz2eq_R true stomp v) <= 360 /\ -90 <= snd (xyz2eq_R true stomp v) <= 90.
+Proof. exact xyz2eq_range. Qed.
+
+(* ---------------------------------------------------------------- SDSS survey coordinates *)
+Theorem C09_eq2sdss_correct : forall ra dec,
+  in_range ra eq2sdss_range1 = true -> in_range dec eq2sdss_range2 = true ->
+  exists cl ce, eq2sdss_R ra dec = Ok (cl, ce) /\
+    sdss_unit (cl * D2R) (ce * D2R) = Rz (- sdss_node) (unit_deg ra dec) /\
+    -90 <= cl <= 90 /\ -180 <= ce <= 180.
+Proof. exact eq2sdss_correct. Qed.
+
+Theorem C09_sdss2eq_correct : forall cl ce,
+  in_range cl sdss2eq_range1 = true -> in_range ce sdss2eq_range2 = true ->
+  exists ra dec, sdss2eq_R cl ce = Ok (ra, dec) /\
+    unit_deg ra dec = Rz sdss_node (sdss_unit (cl * D2R) (ce * D2R)) /\
+    0 <= ra <= 360 /\ -90 <= dec <= 90.
+Proof. exact sdss2eq_correct. Qed.
+
+Theorem C09_sdss_inverse_eq : forall ra dec, 0 <= ra <= 360 -> -90 <= dec <= 90 ->
+  exists cl ce ra' dec', eq2sdss_R ra dec = Ok (cl, ce) /\ sdss2eq_R cl ce = Ok (ra', dec') /\
+    unit_deg ra' dec' = unit_deg ra dec.
+Proof. exact sdss_inverse_eq. Qed.
+
+Theorem C09_sdss_inverse_sdss : forall cl ce, -90 <= cl <= 90 -> -180 <= ce <= 180 ->
+  exists ra dec cl' ce', sdss2eq_R cl ce = Ok (ra, dec) /\ eq2sdss_R ra dec = Ok (cl', ce') /\
+    sdss_unit (cl' * D2R) (ce' * D2R) = sdss_unit (cl * D2R) (ce * D2R).
+Proof. exact sdss_inverse_sdss. Qed.
+
+Theorem C09_sdss_rejects_out_of_range : forall ra dec,
+  (ra < 0 \/ 360 < ra \/ dec < -90 \/ 90 < dec) -> eq2sdss_R ra dec = Err EValue.
+Proof. exact sdss_rejects. Qed.
+
+(* rotations about z preserve separations (used with the two theorems above and C09_xyz_is_rotated_direction) *)
+Theorem C09_Rz_isometry : forall a u v, dot (Rz a u) (Rz a v) = dot u v.
+Proof. exact dot_Rz. Qed.
+
+(* ---------------------------------------------------------------- shiftlon / shiftra (exact rationals) *)
+Theorem C09_shiftlon_spec : forall lon shift wrap, lon_valid lon ->
+  shiftlon_ok lon shift wrap (shiftlon lon shift wrap).
+Proof. exact shiftlon_spec. Qed.
+
+(* ---------------------------------------------------------------- soundness of the run-time checkers *)
+Theorem C09_shiftlon_check_sound : forall lon shift wrap out,
+  shiftlon_check lon shift wrap out = true -> shiftlon_ok lon shift wrap out.
+Proof. exact shiftlon_check_sound. Qed.
+
+Theorem C09_shiftlon_check_tol_sound : forall tol lon shift wrap out,
+  shiftlon_check_tol tol lon shift wrap out = true -> shiftlon_ok_tol tol lon shift wrap out.
+Proof. exact shiftlon_check_tol_sound. Qed.
+
+Theorem C09_shiftlon_ok_tol_0 : forall lon shift wrap out,
+  shiftlon_ok_tol 0 lon shift wrap out -> shiftlon_ok lon shift wrap out.
+Proof. exact shiftlon_ok_tol_0. Qed.
+
+Theorem C09_unit_len_check_sound : forall x y z, unit_len_check x y z = true ->
+  ((1 - unit_tol) * (1 - unit_tol) <= x * x + y * y + z * z <= (1 + unit_tol) * (1 + unit_tol))%Q.
+Proof. exact unit_len_check_sound. Qed.
+
+Theorem C09_lonlat_ok_sound : forall lon lat, lonlat_ok (Some lon, Some lat) = true ->
+  (0 <= lon <= 360 /\ -90 <= lat <= 90)%Q.
+Proof. exact lonlat_ok_sound. Qed.
+
+Theorem C09_sdss_ok_sound : forall cl ce, sdss_ok (Some cl, Some ce) = true ->
+  (-90 <= cl <= 90 /\ -180 <= ce <= 180)%Q.
+Proof. exact sdss_ok_sound. Qed.
+
+(* ---------------------------------------------------------------- non-vacuity *)
+Example C09_nonvacuous_selectors : valid_sel 1 /\ valid_sel 6 /\ lon_valid (350 # 1).
+Proof. unfold valid_sel, lon_valid, Qle, Qlt. simpl. lia. Qed.
+
+(* the boundary input of the repaired defect: shiftlon(350, shift=-10) is 0, not 360 *)
+Example C09_shiftlon_boundary : (shiftlon (350 # 1) (Some (- 10 # 1)%Q) true == 0)%Q.
+Proof. vm_compute. reflexivity. Qed.
+
+Example C09_checker_rejects_360 : shiftlon_check (350 # 1) (Some (- 10 # 1)%Q) true (360 # 1) = false.
+Proof. vm_compute. reflexivity. Qed.
